@@ -22,6 +22,10 @@ CLAIMED = {
   "Lean 4 theorems about the pointwise terms of typhon/retrieval/scores.py regenerated from /repo by tools/py2lean on every run: quantile_score is the pinball loss (tau|d| below, (1-tau)|d| above, non-negative, zero iff equal) and - for EVERY finite sample and tau in [0,1] - any constant c with #{y<c} <= tau n <= #{y<=c} minimises mean_quantile_score (C19_minimiser_is_quantile, by summing per-point sub-gradient inequalities over the list); mape and bias are 0 for perfect predictions, p / +-p for uniform p% offsets, permutation- and scale-invariant.  A breaking source change breaks a proof; the check then finds a failing sample on the real code with an exact-Fraction oracle.",
   "Trusted: Lean kernel + 3 standard axioms; translator tools/py2lean incl. its reading of the top-level np.mean/np.nanmean as the mean of the emitted pointwise term (Float cross-run + array-level oracle each run).  Array reshaping for (n,), (n,1), (n,k) and the ValueError for inconsistent shapes are glue exercised by the harness only.",
   "Lean 4 proof over a model regenerated from the source by a translator (py2lean) + Float cross-run + exact oracle"),
+ "C14": ("numeric",
+  "Lean 4 theorems about the array-level model Model/Column.lean (trapezoid rule, IWV, CRH, pressure2height, linear interpolation) instantiated with the scalar converters regenerated from /repo by tools/py2lean: integrate_column is linear in y, additive when split at a grid point, changes sign under reversal, defaults to unit spacing, and each trapezoid is the exact interval integral of the linear interpolant (C14_segment_integral); hydrostatic IWV >= 0 for 0 <= vmr < 1 and decreasing pressure; CRH is the ratio of the pressure integrals of q and q_s (using the C09 inverses), equals 1 for a saturated profile and is linear in q; pressure2height starts at 0 and is strictly increasing for strictly decreasing pressure; the interpolant reproduces every node of a strictly increasing table.  The model is run with Float on the same inputs as the real code on every run (correspondence) and an exact-Fraction / grid-refinement oracle checks the real code.",
+  "Trusted: Lean kernel + 3 standard axioms; hand-written Model/Column.lean + correspondence sampling; translator for the scalar converters.  NOT proved (refinement limits, checked numerically with error ratio ~4 per halving): convergence of hydrostatic vs general IWV, isothermal pressure2height -> (RT/g)ln(p0/p).  Axis handling of n-d arrays is exercised by the harness only.",
+  "Lean 4 proof about a hand-written polymorphic model (run with Float for correspondence) + translator-regenerated scalar functions + exact oracle"),
 }
 NOT_YET = "no Lean model built yet for this property (under construction; see DESIGN.md section 6) - not claimed rather than served by another technique"
 
